@@ -8,7 +8,7 @@ use crate::subscriptions::subscription_manager::SubscriptionManagerDelegate;
 use crate::subscriptions::{
     AckId, DeadlineModification, PulledMessage, SubscriptionName, SubscriptionStats,
 };
-use crate::topics::{Topic, TopicMessage};
+use crate::topics::{AttachSubscriptionError, Topic, TopicMessage};
 use std::cmp::Ordering;
 use std::collections::HashMap;
 use std::sync::{Arc, Weak};
@@ -113,6 +113,24 @@ impl Subscription {
     /// Returns a signal for when the subscription gets deleted.
     pub fn deleted(&self) -> Deleted {
         self.observer.deleted()
+    }
+
+    /// Asks the subscription's actor to attach the subscription to its topic and
+    /// returns the receiver for the outcome.
+    ///
+    /// Must be called right after creation, before the subscription is shared:
+    /// the mailbox is empty at that point, so the request is accepted immediately
+    /// and ends up in front of every other request.
+    pub(crate) fn begin_attach(
+        self: &Arc<Self>,
+    ) -> oneshot::Receiver<Result<(), AttachSubscriptionError>> {
+        let (responder, recv) = oneshot::channel();
+        // If this fails the responder is dropped and the receiver reports `Closed`.
+        let _ = self.sender.try_send(SubscriptionRequest::Attach {
+            subscription: Arc::clone(self),
+            responder,
+        });
+        recv
     }
 
     /// Returns the info for the subscription.
